@@ -14,7 +14,7 @@ RULE = ('Hypothesis histories (whole history shrinks as one value): storage in {
         'cache() over a raw mutable upstream, cache(lazy=False), diskcache(), cache() with free memory below the '
         'threshold} x container (list / dict) x payload '
         '(nested dict with list, dict and numpy array; tuple with mutable members; bare array; top-level object array '
-        'with mutable members; top-level 1 MiB array; examples that cannot be pickled - a cache may refuse them, never '
+        'with mutable members; top-level 1 MiB array; str / float subclass instances with mutable attributes; examples that cannot be pickled - a cache may refuse them, never '
         'hand out shared objects) x a sequence of steps: read by '
         'index / negative index / numpy index / key / slice-then-index / full iteration / items() / through copy() '
         '/ through a slice view, then mutate what was returned (set, append, delete, clear, nested, in-place array '
@@ -39,7 +39,19 @@ def plan(tier):
     return {'shards': 4 if tier == 'quick' else 16}
 
 
+class TaggedStr(str):
+    """A str subclass that carries mutable attributes (an utterance id with its metadata): looks like a scalar."""
+
+
+class TaggedFloat(float):
+    pass
+
+
 def make_example(kind, i):
+    if kind == 'attr_scalar':
+        ex = TaggedStr(f'utt{i}') if i % 2 == 0 else TaggedFloat(i + 0.5)
+        ex.meta = {'tags': [i], 'n': i}
+        return ex
     if kind == 'array':
         return np.arange(4, dtype=np.int64) + 10 * i
     if kind == 'bigarray':
@@ -62,6 +74,9 @@ def deq(a, b):
             and bool(np.array_equal(a, b))
     if type(a) is not type(b):
         return False
+    if isinstance(a, (TaggedStr, TaggedFloat)):
+        return (str if isinstance(a, str) else float)(a) == (str if isinstance(b, str) else float)(b) \
+            and deq(vars(a), vars(b))
     if isinstance(a, dict):
         return list(a.keys()) == list(b.keys()) and all(deq(a[k], b[k]) for k in a)
     if isinstance(a, (list, tuple)):
@@ -73,6 +88,13 @@ def mutate(obj, kind):
     """Mutate an example (or an (key, example) pair) in place. Returns True if something was changed."""
     if isinstance(obj, tuple) and len(obj) == 2 and isinstance(obj[0], str):
         obj = obj[1]  # items() pair
+    if isinstance(obj, (TaggedStr, TaggedFloat)):
+        if kind in ('del', 'clear'):
+            obj.meta.clear()
+        else:
+            obj.meta['tags'].append('changed')
+            obj.extra = kind
+        return True
     if isinstance(obj, np.ndarray) and obj.dtype == object:
         if kind in ('set', 'del', 'clear'):
             obj[1] = 'replaced'
@@ -355,7 +377,7 @@ def st_case(draw):
         else:
             steps.append(['read', draw(st.sampled_from(READS)), draw(st.integers(0, 7)),
                           draw(st.sampled_from(MUTS + [None]))])
-    payloads = ['dict', 'dict', 'dict', 'tuple', 'tuple', 'array', 'objarray', 'bigarray']
+    payloads = ['dict', 'dict', 'dict', 'tuple', 'tuple', 'array', 'objarray', 'bigarray', 'attr_scalar']
     if storage in ('cache', 'new_copy'):
         payloads += ['unpicklable', 'unpicklable']
     return {'storage': storage, 'container': container, 'payload': draw(st.sampled_from(payloads)),
